@@ -117,10 +117,10 @@ def rare(time, xlab, dx, p_cj, d_cj, gam, u_piston):
         x2 = x1 + dx
         dxp = (x2 - xp)
         h = dxp / 2
-        u = dd * (x1 + h) + ee
-        p = p_cj * ((aa * (x1 + dxp) + bb)**bp1 - (aa * x1 + bb)**bp1) / (dxp * aa * bp1)
-        c = c_cj * (aa * (x1 + h) + bb)
-        rho = rho_cj * ((aa * (x1 + dxp) + bb)**dp1 - (aa * x1 + bb)**dp1) / (dxp * aa * dp1)
+        u = dd * (xp + h) + ee
+        p = p_cj * ((aa * (xp + dxp) + bb)**bp1 - (aa * xp + bb)**bp1) / (dxp * aa * bp1)
+        c = c_cj * (aa * (xp + h) + bb)
+        rho = rho_cj * ((aa * (xp + dxp) + bb)**dp1 - (aa * xp + bb)**dp1) / (dxp * aa * dp1)
 
         # residual q's
         ur = u_piston
@@ -132,7 +132,7 @@ def rare(time, xlab, dx, p_cj, d_cj, gam, u_piston):
         u = ur + (u - ur) * 2.0 * h / dx
         p = pr + (p - pr) * 2.0 * h / dx
         c = cr + (c - cr) * 2.0 * h / dx
-        rho = rho + (rho - rhor) * 2.0 * h / dx
+        rho = rhor + (rho - rhor) * 2.0 * h / dx
     # solution in the constant state
     else:
         u = u_piston
